@@ -50,6 +50,7 @@ func main() {
 	worker := flag.Bool("worker", false, "internal: run schedules, print one JSON result per line")
 	n := flag.Int("n", 0, "internal: number of schedules of this worker")
 	probe := flag.String("probe", "", "run a named hand-written schedule and print the observations")
+	probeJSON := flag.String("probe-json", "", "internal: run a named hand-written schedule, print its result as JSON")
 	stress := flag.Int("stress", 0, "internal: free-running stress for N milliseconds, print result JSON")
 	race := flag.Int("race-stats", 0, "internal: N rounds of the UpdateStats race search, print result JSON")
 	skipSort := flag.Bool("skip-sort-docs", false, "internal: stress with frac.Config.SkipSortDocs=true")
@@ -67,6 +68,11 @@ func main() {
 	}
 	if *probe != "" {
 		runProbe(*probe)
+		return
+	}
+	if *probeJSON != "" {
+		b, _ := json.Marshal(runInput(probeInput(*probeJSON), "fixed-"+*probeJSON))
+		fmt.Println(string(b))
 		return
 	}
 	if *race > 0 {
@@ -88,6 +94,7 @@ func main() {
 			b, _ := json.Marshal(res)
 			w.Write(b)
 			w.WriteByte('\n')
+			w.Flush()               // the parent counts the finished schedules: the next one is the one that killed the process
 			if res.Viol == "hang" { // parked goroutines cannot be recovered: stop this worker
 				break
 			}
@@ -137,8 +144,18 @@ func main() {
 		return
 	}
 	// fixed regression schedules first (witnesses of the model's Examples), then random ones
+	// each in a process of its own: the real code may kill the process (fatal error, panic in a store goroutine)
 	for _, name := range probeNames() {
-		add(runInput(probeInput(name), "fixed-"+name))
+		var errb tailBuf
+		cmd := exec.Command(os.Args[0], "-probe-json", name)
+		cmd.Stderr = &errb
+		outb, err := cmd.Output()
+		var res Result
+		if err != nil || json.Unmarshal(outb, &res) != nil {
+			w.Violate("crash:fixed-"+name, fmt.Sprintf("the real store code killed the process while this schedule ran (%v): %s", err, errb.head()), probeInput(name))
+			continue
+		}
+		add(&res)
 	}
 	total, workers, stressMs, stressRuns, raceRounds, raceRuns := 300, 6, 1500, 2, 500, 3
 	if *tier == "thorough" {
@@ -150,6 +167,7 @@ func main() {
 	var wgr sync.WaitGroup
 	results := make([][]*Result, workers)
 	fail := ""
+	var failInput any
 	// the schedules are split into `workers` shards with fixed seeds (the cases do not depend on the parallelism);
 	// at most VERIF_HARNESS_WORKERS (default 4) worker processes run at the same time
 	par := 4
@@ -164,13 +182,17 @@ func main() {
 			defer wgr.Done()
 			sem <- struct{}{}
 			defer func() { <-sem }()
+			var errb tailBuf
 			cmd := exec.Command(os.Args[0], "-worker", "-seed", fmt.Sprint(s), "-n", fmt.Sprint(per))
-			cmd.Stderr = os.Stderr
+			cmd.Stderr = &errb
 			outb, err := cmd.Output()
 			mu.Lock()
 			defer mu.Unlock()
 			if err != nil {
-				fail = fmt.Sprintf("worker %d (seed %d): %v", k, s, err)
+				done := strings.Count(string(outb), "\n")
+				fail = fmt.Sprintf("worker %d: %v: %s", k, err, errb.head())
+				failInput = map[string]any{"worker_seed": s, "schedule_index": done,
+					"rerun": fmt.Sprintf("hC07 -worker -seed %d -n %d   (the last schedule is the one that kills the process)", s, done+1)}
 			}
 			sc := bufio.NewScanner(strings.NewReader(string(outb)))
 			sc.Buffer(make([]byte, 1<<20), 1<<26)
@@ -190,7 +212,7 @@ func main() {
 	}
 	if fail != "" {
 		// a worker died: the real code crashed the process (e.g. a panic in an index worker goroutine)
-		w.Violate("worker-crash", "a schedule crashed the process running the real store code: "+fail, nil)
+		w.Violate("worker-crash", "a schedule crashed the process running the real store code: "+fail, failInput)
 	}
 	// free-running stress (supporting test): real goroutines, no schedule points taken
 	for i := 0; i < stressRuns; i++ {
@@ -388,4 +410,27 @@ func drain(e *Exec) ([]Label, []Obs) {
 		}
 	}
 	return ls, os_
+}
+
+// tailBuf keeps the beginning of a child's stderr (the first lines of a Go crash say what happened).
+type tailBuf struct{ b []byte }
+
+func (t *tailBuf) Write(p []byte) (int, error) {
+	if len(t.b) < 4096 {
+		t.b = append(t.b, p...)
+	}
+	return len(p), nil
+}
+
+func (t *tailBuf) head() string {
+	s := string(t.b)
+	if i := strings.Index(s, "fatal error"); i >= 0 {
+		s = s[i:]
+	} else if i := strings.Index(s, "panic:"); i >= 0 {
+		s = s[i:]
+	}
+	if len(s) > 300 {
+		s = s[:300]
+	}
+	return s
 }
